@@ -21,7 +21,7 @@ import (
 //
 //	batch <entry> <mode> <seed> <k>
 //	     k values are derived from seed (type bytes and field values as for `rt`; for entry udp: payloads of
-//	     sizes across the whole range a frame can carry, addresses nil / v4 / v6), encoded by the real encoder and
+//	     sizes across the whole range a frame can carry, local and remote address from the class of cbAddr), encoded by the real encoder and
 //	     decoded through one decode ENTRY POINT of the protocol:
 //	       rd    msg.ReadMsg                         (mode seq: k calls on ONE reader holding all frames back to back)
 //	       into  msg.ReadMsgInto(new T)              (the same)
@@ -35,7 +35,9 @@ import (
 //	     => per item seven words:
 //	        t<typeByte> B<json body written> O<canonical object of that body> V<value that went in>
 //	        I<value at once | err:cls | PANIC> L<value after the batch | = (same text as I) | -> R<x+frame of the re-encoded retained value | - | werr>
-//	     (message entries: V I L are reflection dumps as for `rt`; udp: V I L are p<hex> of the payload / content)
+//	     (message entries: V I L are reflection dumps as for `rt`; udp: V = p<payload hex>/<local addr>/<remote addr> as handed to
+//	     udp.NewUDPPacket, I L = p<GetContent's result>/<LocalAddr>/<RemoteAddr> of the packet the peer decoded; an address is
+//	     `n` (nil) or <IP bytes hex>.<Port>.<Zone hex> — every field of net.UDPAddr)
 //
 // The harness compares nothing: the driver decides (I and L against the model's value of V, R against the model's
 // encoding of B).
@@ -62,15 +64,107 @@ type cbItem struct {
 var cbPayloadSizes = []int{0, 1, 2, 3, 4, 5, 15, 16, 17, 63, 64, 100, 255, 256, 511, 512, 700, 767, 768, 769, 1000, 1023, 1024, 1025, 1200,
 	1400, 1472, 1500, 2000, 2048, 3000, 4096, 5000, 6000, 7000, 7400}
 
-func cbAddr(rng *rand.Rand) *net.UDPAddr {
-	switch rng.Intn(4) {
+// the address class of a udp message: net.UDPAddr is a plain struct of three fields and every combination of them is
+// a value a packet may carry — nil, the zero value, an empty IP with a port / a zone, IPv4 in its 4- and 16-byte
+// form, IPv4-in-IPv6, IPv6 of every scope (global, unique local, link local, multicast of several scopes,
+// unspecified, loopback, random), ports across the range incl. 0 and 65535, and zones: none, interface names,
+// numeric ids, odd characters (valid UTF-8: the string clause of the codec), long ones
+var cbZonePool = []string{
+	"eth0", "wlan0", "lo", "en0", "enp0s31f6", "br-1a2b3c4d5e6f", "tun0", "Ethernet 2", "vEthernet (WSL)",
+	"1", "7", "42", "4294967295", "0",
+	"%", "%eth0", "eth0%", " ", "a b", "\"", "\\", "<&>", "]", "[", ":", "::1", "fe80::1", "/", "\x00", "\x01\x1f", "\x7f", "\t", "\n",
+	"é", "ünï", "日本語", "😀", "\u2028", "eth0\u00a0", "İ", "ſ", "K",
+}
+
+func cbZone(rng *rand.Rand) string {
+	switch rng.Intn(10) {
+	case 0, 1, 2:
+		return ""
+	case 3:
+		return strings.Repeat(pick(rng, []string{"z", "eth", "é", "%", "\"", "0"}), 16+rng.Intn(80)) // long
+	case 4:
+		b := make([]byte, 1+rng.Intn(15))
+		for i := range b {
+			b[i] = byte(32 + rng.Intn(95))
+		}
+		return string(b)
+	default:
+		return pick(rng, cbZonePool)
+	}
+}
+
+func cbIP(rng *rand.Rand) net.IP {
+	rnd := func(n int) []byte { b := make([]byte, n); rng.Read(b); return b }
+	switch rng.Intn(14) {
 	case 0:
 		return nil
 	case 1:
-		return &net.UDPAddr{IP: net.IP{127, 0, 0, 1}, Port: 1 + rng.Intn(65535)}
+		return net.IP{} // empty, not nil
+	case 2:
+		return net.IP(rnd(4)) // IPv4, 4-byte form
+	case 3:
+		return net.IP(rnd(4)).To16() // IPv4, 16-byte form (IPv4-in-IPv6)
+	case 4:
+		return pick(rng, []net.IP{net.IPv4zero, net.IPv4bcast, net.IPv4allsys, net.IP{0, 0, 0, 0}, net.IP{127, 0, 0, 1}, net.IP{255, 255, 255, 255},
+			net.IP{169, 254, byte(rng.Intn(256)), byte(rng.Intn(256))}})
+	case 5: // link local
+		return append(net.IP{0xfe, 0x80, 0, 0, 0, 0, 0, 0}, rnd(8)...)
+	case 6: // link local, short forms
+		ip := make(net.IP, 16)
+		ip[0], ip[1], ip[15] = 0xfe, 0x80, byte(1+rng.Intn(255))
+		return ip
+	case 7: // multicast: interface-local, link-local, site-local … scopes
+		ip := make(net.IP, 16)
+		ip[0], ip[1], ip[15] = 0xff, byte(rng.Intn(16)), pick(rng, []byte{1, 2, 0xfb, 0x16})
+		return ip
+	case 8:
+		return pick(rng, []net.IP{net.IPv6zero, net.IPv6unspecified, net.IPv6loopback, net.IPv6linklocalallnodes, net.IPv6interfacelocalallnodes})
+	case 9: // unique local / global
+		ip := net.IP(rnd(16))
+		ip[0] = pick(rng, []byte{0xfd, 0x20, 0x2a})
+		return ip
+	case 10: // zero runs at several places (the text form compresses one of them)
+		ip := net.IP(rnd(16))
+		for g := 0; g < 8; g++ {
+			if rng.Intn(2) == 0 {
+				ip[2*g], ip[2*g+1] = 0, 0
+			}
+		}
+		return ip
+	case 11: // ::ffff:0:0/96 neighbours that are NOT IPv4-mapped
+		ip := make(net.IP, 16)
+		copy(ip[8:], rnd(8))
+		ip[10], ip[11] = pick(rng, []byte{0xff, 0xfe, 0}), 0xff
+		return ip
 	default:
-		return &net.UDPAddr{IP: genIP(rng), Port: rng.Intn(65536), Zone: pick(rng, []string{"", "", "", "eth0"})}
+		return net.IP(rnd(16))
 	}
+}
+
+func cbAddr(rng *rand.Rand) *net.UDPAddr {
+	switch rng.Intn(12) {
+	case 0:
+		return nil
+	case 1:
+		return &net.UDPAddr{} // the zero value
+	case 2: // an empty IP with a port and / or a zone
+		return &net.UDPAddr{Port: pick(rng, []int{0, 53, 65535}), Zone: cbZone(rng)}
+	}
+	port := pick(rng, []int{0, 65535, 1, 53, 5353, 40000, rng.Intn(65536), rng.Intn(65536), rng.Intn(65536)})
+	return &net.UDPAddr{IP: cbIP(rng), Port: port, Zone: cbZone(rng)}
+}
+
+// `n` (nil) | <ip hex>.<port>.<zone hex>: every field of the struct, raw
+func cbAddrDump(a *net.UDPAddr) string {
+	if a == nil {
+		return "n"
+	}
+	return fmt.Sprintf("%s.%d.%s", hex.EncodeToString(a.IP), a.Port, hex.EncodeToString([]byte(a.Zone)))
+}
+
+// p<payload hex>/<local addr>/<remote addr>
+func cbPktDump(content []byte, l, r *net.UDPAddr) string {
+	return "p" + hex.EncodeToString(content) + "/" + cbAddrDump(l) + "/" + cbAddrDump(r)
 }
 
 func cbItems(entry string, seed int64, k int) []*cbItem {
@@ -167,7 +261,7 @@ func cbWorker(entry string, key []byte, mine []*cbItem) {
 				continue
 			}
 			it.content = c
-			it.imm = "p" + hex.EncodeToString(c)
+			it.imm = cbPktDump(c, pkt.LocalAddr, pkt.RemoteAddr)
 		}
 	case "nh":
 		for _, it := range mine {
@@ -245,8 +339,8 @@ func codecBatch(tok []string) string {
 		rbuf := make([]byte, 1<<16)
 		for _, it := range items {
 			n := copy(rbuf, it.payload)
+			it.vdump = cbPktDump(it.payload, it.laddr, it.raddr) // what goes in, dumped before the constructor sees it
 			queued = append(queued, udp.NewUDPPacket(rbuf[:n], it.laddr, it.raddr))
-			it.vdump = "p" + hex.EncodeToString(it.payload)
 		}
 		for i := range rbuf {
 			rbuf[i] ^= 0x5a
@@ -331,8 +425,8 @@ func codecBatch(tok []string) string {
 				if it.content == nil && !strings.HasPrefix(it.imm, "p") {
 					return
 				}
-				it.late = "p" + hex.EncodeToString(it.content)
 				pkt := it.kept.(*msg.UDPPacket)
+				it.late = cbPktDump(it.content, pkt.LocalAddr, pkt.RemoteAddr)
 				again = udp.NewUDPPacket(it.content, pkt.LocalAddr, pkt.RemoteAddr)
 			} else {
 				it.late = cbDump(it.kept)
